@@ -415,7 +415,9 @@ impl Run {
                            "es": es.iter().map(|(id, sz)| json!([payload::key_of(*id, *sz), sz])).collect::<Vec<_>>()})
                 };
                 let mut ev = self.with_proj(ev0, i, &t);
-                verif::set_recording(true, false);
+                if !self.keep_io_log {
+                    verif::set_recording(true, false);
+                }
                 let _ = self.drain_io();
                 let w = match self.insts[i].as_ref() {
                     Some(w) => w,
